@@ -291,7 +291,68 @@ func c08R2(h H) {
 	}
 }
 
+// c08R3: a failed start leaves no socket behind — decided from what startServers does (E10 table, see
+// startServersTable); the pattern formulation (c08R3Patterns) is kept for reference and no longer registered.
 func c08R3(h H) {
+	r := h.r
+	r.Rule("R3", "listener cleanup as a decision table (E10): startServers, evaluated for two servers with the second one's Listen failing (on a first start and on a reload that inherited the first one's socket), returns the error having closed every socket it opened or rebuilt from an inherited descriptor, and closes nothing when the start succeeds; the serving goroutines start only after every listener was obtained, and no error return follows them", 2)
+	fn := h.fn("R3", "", "startServers")
+	if fn == nil {
+		return
+	}
+	t := startServersTable(h)
+	r.Check(t.cleanup == "" && t.other == "", "R3", "casket.startServers/cleanup-table", fn.Pos(), "a start that fails closes the sockets opened so far; a start that succeeds keeps them", sprintf("%d cases evaluated", t.n), t.cleanup, t.other)
+	serveAfterListeners(h, fn)
+}
+
+// serveAfterListeners: goroutines (started in startServers, in its closures or in the helpers it calls) come after
+// the last Listen, and startServers cannot fail once one was started.
+func serveAfterListeners(h H, fn *ssa.Function) {
+	r := h.r
+	var gos []ssa.Instruction
+	hasGo := func(f *ssa.Function) bool {
+		found := false
+		for _, g := range withHelpers(f, 2) {
+			allInstrs(g, func(in ssa.Instruction) {
+				if _, ok := in.(*ssa.Go); ok {
+					found = true
+				}
+			})
+		}
+		return found
+	}
+	allInstrs(fn, func(in ssa.Instruction) {
+		if _, ok := in.(*ssa.Go); ok {
+			gos = append(gos, in)
+			return
+		}
+		if c := callOf(in); c != nil {
+			if _, isDefer := in.(*ssa.Defer); isDefer {
+				return
+			}
+			if f := calleeFunc(c); f != nil && f != fn && fnPkg(f) != nil && fnPkg(fn) != nil && fnPkg(f).Path() == fnPkg(fn).Path() && hasGo(f) {
+				gos = append(gos, in)
+			}
+		}
+	})
+	bad := false
+	for _, g := range gos {
+		reach(fn, g, cut{}, func(x ssa.Instruction) bool {
+			if rt, ok := x.(*ssa.Return); ok && rt.Block() != fn.Recover {
+				if c, isC := retResults(rt)[0].(*ssa.Const); !isC || c.Value != nil {
+					bad = true
+				}
+			}
+			if c := callOf(x); c != nil && c.IsInvoke() && (c.Method.Name() == "Listen" || c.Method.Name() == "ListenPacket") {
+				bad = true
+			}
+			return !bad
+		})
+	}
+	r.Check(len(gos) > 0 && !bad, "R3", "casket.startServers/serve-after-all-listeners", fn.Pos(), "serving goroutines are started only after every listener was obtained, and startServers cannot fail afterwards")
+}
+
+func c08R3Patterns(h H) {
 	r := h.r
 	r.Rule("R3", "listener cleanup: casket.startServers defers a function that, when the start fails, closes every element of a cleanup slice; every listener / packet conn stored into the instance's server list is appended to that slice on every path on which it is non-nil; the serving goroutines start only after the listener loop, and no error return follows them", 4)
 	fn := h.fn("R3", "", "startServers")
@@ -890,40 +951,12 @@ func runC07(r *Report, p *Program) {
 		}
 	}
 
-	r.Rule("R2", "sockets are handed over, never rebound: in startServers Listen()/ListenPacket() are invoked only on the nil edge of a test on the listener value that an inherited descriptor may have produced (net.FileListener / net.FilePacketConn of the old listener's File())", 2)
+	r.Rule("R2", "sockets are handed over, never rebound — as a decision table (E10): startServers, evaluated for two servers on a first start, on a reload whose socket table has an entry for the first server's address, on a reload whose table is empty or has an entry for another address only: a server whose own address is in the table rebuilds its listener from the old listener's File() and does not call Listen; every other server calls Listen exactly once and inherits nothing", 2)
 	ss := h.fn("R2", "", "startServers")
 	if ss != nil {
-		for _, spec := range [][3]string{{"Listen", "net.FileListener", "net.Listener"}, {"ListenPacket", "net.FilePacketConn", "net.PacketConn"}} {
-			var calls []ssa.Instruction
-			allInstrs(ss, func(in ssa.Instruction) {
-				if c := callOf(in); c != nil && c.IsInvoke() && c.Method.Name() == spec[0] {
-					calls = append(calls, in)
-				}
-			})
-			if len(calls) == 0 {
-				r.Unresolve("R2", "startServers: no "+spec[0]+" invoke")
-				continue
-			}
-			nilE := nilEdges(ss, true, func(v ssa.Value) bool {
-				return v.Type().String() == spec[2] && derives(v, func(x ssa.Value) bool { return isResultOf(x, 0, spec[1]) }, flowOpts{throughCalls: true})
-			})
-			for _, c := range calls {
-				r.Check(onlyVia(ss, c, nilE), "R2", "casket.startServers/"+spec[0]+"-only-without-inherited", c.Pos(), "a socket is opened afresh only when no inherited descriptor yielded one (a reload must not close and rebind)")
-			}
-		}
-		// inherited listener comes from the old listener's File()
-		okFile := false
-		allInstrs(ss, func(in ssa.Instruction) {
-			if c, ok := in.(*ssa.Call); ok && calleeName(&c.Call) == "net.FileListener" {
-				if derives(c.Call.Args[0], func(x ssa.Value) bool {
-					cc, ok := x.(*ssa.Call)
-					return ok && cc.Call.IsInvoke() && cc.Call.Method.Name() == "File"
-				}, flowOpts{}) {
-					okFile = true
-				}
-			}
-		})
-		r.Check(okFile, "R2", "casket.startServers/inherit-from-File", ss.Pos(), "on reload the listener is rebuilt from the old listener's duplicated descriptor (File())")
+		t := startServersTable(h)
+		r.Check(t.inherit == "" && t.other == "", "R2", "casket.startServers/inherit-table", ss.Pos(), "on reload the listener of an address is rebuilt from the old listener of that very address (its duplicated descriptor), and from no other", sprintf("%d cases evaluated", t.n), t.inherit, t.other)
+		r.Check(t.listen == "" && t.other == "", "R2", "casket.startServers/listen-table", ss.Pos(), "a socket is opened afresh exactly when none was inherited (a reload must not close and rebind)", sprintf("%d cases evaluated", t.n), t.listen, t.other)
 	}
 
 	r.Rule("R3", "graceful stop: httpserver.(*Server).Stop calls (*http.Server).Shutdown with a context from context.WithTimeout(…, connTimeout) and never (*http.Server).Close; Instance.Stop's loop over its servers has no exit other than exhaustion", 3)
